@@ -853,6 +853,33 @@ func (g *gen) orders() error {
 	iCreate := strings.Index(body, "p.createIPSet(newIPSetMap)")
 	iDefer := strings.Index(body, "defer func() {")
 	iIpt := strings.Index(body, "return p.syncIptables(polices)")
+	// syncNetworkPolicyRules: syncRules is called unconditionally (also by a process that has seen no NetworkPolicy: that
+	// is what removes the GLX-PLCY chains and GLX sets a previous process left behind)
+	fd, err = g.p.Fn("PolicyManager", "syncNetworkPolicyRules")
+	if err != nil {
+		return err
+	}
+	uncond := true
+	sawCall := false
+	for _, st := range fd.Body.List {
+		src := strings.Join(strings.Fields(g.p.Src(st)), " ")
+		if strings.Contains(src, "p.syncRules(") {
+			is, ok := st.(*ast.IfStmt)
+			if !ok || is.Init == nil || !strings.HasPrefix(strings.Join(strings.Fields(g.p.Src(is.Init)), " "), "err := p.syncRules(policies)") {
+				uncond = false
+			}
+			sawCall = true
+			break
+		}
+		switch st.(type) {
+		case *ast.IfStmt, *ast.ReturnStmt, *ast.ForStmt, *ast.RangeStmt, *ast.SwitchStmt:
+			uncond = false // something decides or returns before the call
+		}
+	}
+	if !sawCall {
+		return fmt.Errorf("syncNetworkPolicyRules: no call of p.syncRules found at statement level")
+	}
+	g.emit("def syncNetworkPolicyRulesUnconditional : Bool := %s", fg.LeanBool(uncond))
 	// createIPSet: does the stale-entry clean-up spare an old entry whose KEY is among the new entries?
 	fd, err = g.p.Fn("PolicyManager", "createIPSet")
 	if err != nil {
